@@ -1,4 +1,10 @@
 ---- MODULE MC_Store ----
 EXTENDS KevoStore
+CONSTANTS DKeys, DVals, DSync, DMaxOps, DMaxBatch
 StateBound == Len(logs) <= 3 /\ Len(ret) <= 2
+
+\* KevoStore implements the client-level durability contract KevoDurable (C02/C03): every step of the
+\* storage engine is a step of (or invisible to) that specification under this mapping.
+D == INSTANCE KevoDurable WITH dIssued <- issued, dAcked <- Acked, dUp <- up
+RefinesDurable == D!DSpec
 ====
